@@ -19,7 +19,7 @@ import txdbus.protocol
 from txdbus import authentication, bus as txbus
 
 ACTIONS = {'FirstByte': ('nul',), 'Auth': ('m', 'ir', 'o'), 'Data': ('p', 'o'), 'Begin': (), 'Cancel': (),
-           'ErrorLine': (), 'TooLong': (), 'Other': ('kind',)}
+           'ErrorLine': (), 'TooLong': (), 'Other': ('kind',), 'AfterClose': ('kind',)}
 OBS = ['resp', 'authed', 'closed']      # authed/closed are derived below; see project()
 BASE = 'MC_AuthServer'
 
@@ -36,8 +36,10 @@ class StubMech:
     def init(self, protocol):
         pass
 
+    queue = []       # outcomes for the next steps when several lines travel in one read
+
     def step(self, arg):
-        o = type(self).next_outcome
+        o = StubMech.queue.pop(0) if StubMech.queue else StubMech.next_outcome
         return {'ok': ('OK', None), 'cont': ('CONTINUE', b'ch'), 'rej': ('REJECTED', None)}[o]
 
     def getUserName(self):
@@ -127,16 +129,12 @@ class AuthServerDriver:
             self.t.loseConnection()
         self.last = self.t.log[before:]
 
-    def apply(self, name, args, splits=None):
+    def line_bytes(self, name, args):
         user = getpass.getuser().encode()
         if name == 'FirstByte':
-            self.first = False
-            self.feed(b'\0' if args[0] else b'A')
-            return
-        prefix = b''
+            return b'\0' if args[0] else b'A'
         if name == 'Auth':
             m, ir, o = args
-            StubMech.next_outcome = o
             mb = {'none': b'', 'unknown': b'NOPE'}.get(m, m.encode())
             line = b'AUTH' + (b' ' + mb if mb else b'')
             if ir == 'user':
@@ -147,12 +145,11 @@ class AuthServerDriver:
                 line += b' zz%'
         elif name == 'Data':
             p, o = args
-            StubMech.next_outcome = o
             if p == 'empty':
                 line = b'DATA'
             elif p == 'badhex':
                 line = b'DATA xyz'
-            elif p in ('right', 'wrong'):
+            else:
                 line = b'DATA ' + binascii.hexlify(self.cookie_response(p == 'right'))
         elif name == 'Begin':
             line = b'BEGIN'
@@ -165,9 +162,31 @@ class AuthServerDriver:
         elif name == 'Other':
             line = {'negotiate': b'NEGOTIATE_UNIX_FD', 'unknown': b'FOO bar', 'empty': b'',
                     'nontext': b'\xff\xfe AUTH'}[args[0]]
+        elif name == 'AfterClose':
+            if args[0] == 'begin':
+                line = b'BEGIN'
+            else:
+                from txdbus import message
+                hello = message.MethodCallMessage('/org/freedesktop/DBus', 'Hello', interface='org.freedesktop.DBus',
+                                                  destination='org.freedesktop.DBus').rawMessage
+                return b'AUTH ANONYMOUS\r\nBEGIN\r\n' + hello
         else:
             raise ValueError(name)
-        self.feed(line + b'\r\n', splits)
+        return line + b'\r\n'
+
+    def apply(self, name, args, splits=None):
+        if name in ('Auth', 'Data'):
+            StubMech.next_outcome = args[-1]
+            StubMech.queue = []
+        if name == 'FirstByte':
+            self.first = False
+        self.feed(self.line_bytes(name, args), splits if name != 'FirstByte' else None)
+
+    def apply_chunk(self, acts, outcomes):
+        """several lines in ONE read; outcomes = the stub outcomes of the steps the model says happen"""
+        StubMech.queue = list(outcomes)
+        self.feed(b''.join(self.line_bytes(n, a) for n, a in acts))
+        StubMech.queue = []
 
     def cookie_response(self, right):
         """the DATA payload a conforming client computes from the last challenge (independent of
@@ -285,6 +304,66 @@ def replay(chk, g, paths, params, label):
     chk.notes[label + '_replayed'] = n
 
 
+def steps_mech(state, name, args, real):
+    if name == 'Auth':
+        mechs = ('EXTERNAL', 'DBUS_COOKIE_SHA1', 'ANONYMOUS') if real else ('M1', 'M2')
+        return state['st'] == 'WaitAuth' and args[0] in mechs and args[1] != 'badhex'
+    if name == 'Data':
+        return state['st'] == 'WaitData' and args[0] != 'badhex'
+    return False
+
+
+def replay_coalesced(chk, g, paths, params, label, rng):
+    """spec -> code with several lines per read (the NUL byte included); whatever follows a fatal
+    line in the same read must be ignored"""
+    n = 0
+    for p in paths:
+        acts = core.path_actions(g, p)
+        states = [g.nodes[i] for i in p]
+        # append post-close traffic to the read that carried the fatal line
+        if states[-1]['st'] == 'Closed' and acts and acts[-1][0] != 'AfterClose':
+            acts.append(('AfterClose', (rng.choice(['login', 'begin']),)))
+            states.append(dict(states[-1], resp=()))
+        # chunking: a new read before every cookie answer (it depends on the challenge just received)
+        chunks = []
+        cur = []
+        for i, a in enumerate(acts):
+            if cur and ((a[0] == 'Data' and a[1][0] in ('right', 'wrong')) or
+                        (rng.random() < 0.3 and a[0] != 'AfterClose')):
+                chunks.append(cur)
+                cur = []
+            cur.append(i)
+        if cur:
+            chunks.append(cur)
+        drv = AuthServerDriver(params['real'], params['creds'])
+        bad = None
+        try:
+            for ch in chunks:
+                outs = [acts[i][1][-1] for i in ch if steps_mech(states[i], acts[i][0], acts[i][1], params['real'])]
+                drv.apply_chunk([acts[i] for i in ch], outs)
+                got = drv.project()
+                want_resp = tuple(r for i in ch for r in states[i + 1]['resp'])
+                want_st = states[ch[-1] + 1]['st']
+                if got['resp'] != want_resp or got.get('st', want_st) != want_st:
+                    bad = (ch, got, want_resp, want_st)
+                    break
+        except Exception:
+            bad = ('exception', core.traceback_str(), None, None)
+        finally:
+            drv.close()
+        n += 1
+        if bad:
+            chk.violation('coalesced %s: lines %s in one read: impl %r, model resp %r st %r' % (
+                label, [acts[i][0] for i in bad[0]] if bad[0] != 'exception' else 'exception', bad[1], bad[2], bad[3]),
+                dict(kind='spec->code coalesced', module='c06', params=params,
+                     actions=[[a[0], to_tla(tuple(a[1]))] for a in acts], chunk=bad[0], impl=repr(bad[1]),
+                     model_resp=repr(bad[2]), model_st=bad[3]))
+            if len(chk.violations) >= 5:
+                break
+    chk.traces += n
+    chk.notes[label + '_coalesced'] = n
+
+
 def enabled_actions(rng, real):
     mechs = ['EXTERNAL', 'DBUS_COOKIE_SHA1', 'ANONYMOUS'] if real else ['M1', 'M2']
     r = rng.random()
@@ -358,6 +437,8 @@ def run(tier, seed):
             dfs = rng.sample(dfs, 4000)
         replay(chk, g, dfs, params, label + '-depth%d' % depth)
         replay(chk, g, list(core.random_walks(g, 3000 if thorough else 500, 14, rng)), params, label + '-walks')
+        replay_coalesced(chk, g, list(core.random_walks(g, 6000 if thorough else 1500, 12, rng)) +
+                         list(core.edge_cover_paths(g)), params, label, rng)
         # acceptable credentials are accepted (reachability in the model's own graph, then on the code)
         if real:
             want = {'ANONYMOUS': [('Auth', ('ANONYMOUS', 'none', 'ok')), ('Begin', ())],
